@@ -1,6 +1,6 @@
 (* C09 - Task factories: inherited context, exact handle set, teardown waits, errors kept. *)
 From Coq Require Import List Bool Arith.
-From Asphalt Require Import Conc.Factory Conc.FactoryProofs Gen.Gen_service.
+From Asphalt Require Import Conc.Factory Conc.FactoryProofs Gen.Gen_service Gen.Gen_taskfactory.
 Import ListNotations.
 
 (* at every point of every run (any spawns, segments, cancellations, teardown moment, handler
@@ -70,3 +70,18 @@ Theorem C09_source_shape :
   bg_finished_in_finally_after_context = true.
 Proof. exact background_task_source_shape. Qed.
 Print Assumptions C09_source_shape.
+
+(* TaskFactory as read from the source on this run: the factory is a service task of the owner whose teardown
+   action only sets an event; a handle is added before the spawn, taken out again when the spawn fails (both
+   methods), and taken out in a finally clause when the task's wrapper ends; all_task_handles() copies the set *)
+Theorem C09_task_factory_in_source :
+  tf_is_a_service_task_of_the_owner = true /\ tf_teardown_only_sets_an_event = true /\
+  tf_context_is_the_service_tasks = true /\ tf_handle_added_before_spawn = true /\
+  tf_start_task_discards_on_failure = true /\ tf_start_task_soon_discards_on_failure = true /\
+  tf_handle_removed_in_finally = true /\ tf_all_task_handles_is_a_copy = true.
+Proof. exact task_factory_source_shape. Qed.
+Print Assumptions C09_task_factory_in_source.
+
+Theorem C09_failed_spawn_leaves_nothing : forall s b, failed_spawn s b = (s, [SpawnFailed]).
+Proof. exact failed_spawn_leaves_nothing. Qed.
+Print Assumptions C09_failed_spawn_leaves_nothing.
